@@ -198,6 +198,13 @@ class C08:
                         errs[o[0] + ":" + out["err"]] += 1
         return {"ops": dict(ops), "rejected": dict(errs)}
 
+    def slim(self, rec):
+        # keep the per-call outcomes and the verdict, drop the world snapshots (matrices of every circuit)
+        io = rec["impl"]
+        if isinstance(io, list) and len(io) == 3:
+            rec["impl"] = [io[0], [], io[2]]
+        rec["model"] = None
+
     def shrink(self, c):
         prog = c["prog"]
         for i in range(len(prog) - 1, -1, -1):
